@@ -2070,10 +2070,22 @@ func main() {
 			pf, pt := c.Ctx.FromNs, c.Ctx.ToNs
 			for k := 0; k < nwin; k++ {
 				var nf, nt int64
-				switch r5.Intn(6) {
+				sh := r5.Intn(6)
+				switch sh {
 				case 0: // the next window starts where the previous one ended
 					nf, nt = pt, pt+int64(1+r5.Intn(3600))*1e9
-				case 1: // a window before the previous one
+				case 1, 2: // a window before the previous one
+					if k == 0 && sh == 2 {
+						// ... across a day bound of the series-index reads: the first window starts shortly after 00:30 UTC (its
+						// date bound is that day), the next one ends where it starts and begins before 00:30 (its bound is the day
+						// before): a date bound kept from the first call loses the streams indexed on the earlier day only
+						edge := (int64(19700+r5.Intn(30))*86400 + 1800) * 1e9
+						pf = edge + int64(r5.Intn(1800))*1e9
+						pt = pf + span
+						c.Ctx.FromNs, c.Ctx.ToNs = pf, pt
+						nf, nt = edge-int64(1+r5.Intn(1800))*1e9, pf
+						break
+					}
 					nt = pf - int64(r5.Intn(2))*int64(r5.Intn(600))*1e9
 					nf = nt - int64(1+r5.Intn(3600))*1e9
 				default: // tail: from = a delivered timestamp + 1, to = now
